@@ -10,6 +10,7 @@ from fractions import Fraction as Fr
 import numpy as np
 from vf import core
 from vf.ref import defs, dims
+from vf.gen import c11_options
 from .common import chunks
 
 RULE = ("one evaluation = one follow-up operation (or one immediate numbers/units/lut comparison) of one case whose outcome "
@@ -27,7 +28,15 @@ RULE = ("one evaluation = one follow-up operation (or one immediate numbers/unit
         "remove) each made through the registry of the original, of the duplicate or of both, interleaved with more use], to original and duplicate "
         "(either order or interleaved) and compared (a) between the two whenever their tables hold the same contents and (b) with the answer of a "
         "brand-new registry holding a copy of that side's current table; plus one evaluation per side nobody edited: its table is what it was when the "
-        "duplicate was made. distinct = (route, observed relation of the two registries, when it was used, edit kinds, edited through, monitor, question class)")
+        "duplicate was made. distinct = (route, observed relation of the two registries, when it was used, edit kinds, edited through, monitor, question class). "
+        "Third workload (keyword options of the persistence doors, vf/gen/c11_options.py): one evaluation = one immediate comparison (numbers, units, registry table of "
+        "one column / object) or one follow-up operation of a reduced battery compared between the original and the object restored, in another process, through a "
+        "door called with non-default but legitimate options, writer and reader given the same option: savetxt/loadtxt (comments=, delimiter=, header=, footer=, "
+        "fmt= incl. per-column formats, usecols= as tuple/list/ndarray in any order, dtype=, str or path-like file name, single-column files written from a list or "
+        "a bare array, single-row files, bare ndarray columns, float64/float32/int64/complex128 columns, nan/inf/-0.0), pickle (protocol 2-5 and -1, C and "
+        "pure-Python pickler, fix_imports, out-of-band buffers, dumps / dump / Pickler, C / Fortran / strided data), registry JSON re-serialised by a JSON writer "
+        "(indent, sort_keys, ensure_ascii, separators), to_string/from_string(unit_registry=), .copy(order=) / deepcopy(memo) / Unit.copy(deep=). "
+        "distinct = (door, set of non-default options, monitor)")
 ASSUMPTIONS = (
     "the oracle is differential between two executions (original vs restored); it never calls the persistence code to decide, and reads "
     "dimensions through vf/ref/dims.py by symbol name",
@@ -63,6 +72,18 @@ ASSUMPTIONS = (
     "which system 'code' names is decided by registry.unit_system_id (a hash of the table that is outside the statement): in_base('code') is compared "
     "between original and duplicate but not against the brand-new registry",
     "HDF5 (write_hdf5/from_hdf5) needs h5py, dask arrays need dask: neither is installed, both routes are listed as unreached",
+    "options of the persistence doors: an option is legitimate when the underlying NumPy/stdlib door can itself read back what it wrote with it (one-character "
+    "comment markers that differ from the delimiter, single-character delimiters, no blank delimiter with blank-padded formats or complex columns); numbers must "
+    "come back exactly because every value driven through a fmt= is one that Python's own % formatting prints exactly with that format; loadtxt(dtype=) decides "
+    "the dtype that comes back; a bare ndarray column must come back dimensionless in the default registry; the file name may be a str or a path-like object",
+    "a registry's JSON text re-serialised by a JSON writer (indent, key order, separators, ensure_ascii) is the same JSON document: from_json must restore the "
+    "same registry from it",
+    "to_string/from_string: a string outside the documented grammar of from_string (ValueError 'invalid quantity expression': fractional powers, leading 1/, "
+    "non-ASCII symbols) is a loud refusal and is noted; a string that is accepted must give back the same number and an equal unit in the registry asked for "
+    "(unit_registry=None means the default registry); the dtype class (float/int) is what the text says, follow-ups are judged for float64 quantities",
+    "copy(order=) decides the memory layout of the copy, which is outside the statement (numbers, units, behaviour): a layout other than the one asked for is noted only",
+    "mechanism keys of the options workload name the non-default options without which the failure disappears (each one is put back to its default in turn and "
+    "the case re-run in-process); 'any-options' = the failure stays whatever single option is reset",
 )
 MIN_EVALS = 20000
 TIMEOUT = 2400
@@ -326,11 +347,13 @@ def batches(tier, seed):
         b += [("random/%d" % i, {"gen": [tier, seed, 12, i]}) for i in range(16)]
         b += [("history/%d" % i, {"hist": c}) for i, c in enumerate(chunks(shared_histories(tier, seed), 16))]
         b += [("history-random/%d" % i, {"hgen": [tier, seed, 8, i]}) for i in range(16)]
+        b = c11_options.batches(tier, seed) + b
     else:
         b = [("table/%d" % i, {"cases": c}) for i, c in enumerate(chunks(tc, 96))]
         b += [("random/%d" % i, {"gen": [tier, seed, 40, i]}) for i in range(64)]
         b += [("history/%d" % i, {"hist": c}) for i, c in enumerate(chunks(shared_histories(tier, seed), 64))]
         b += [("history-random/%d" % i, {"hgen": [tier, seed, 60, i]}) for i in range(64)]
+        b = c11_options.batches(tier, seed) + b
     return b
 
 
@@ -1615,9 +1638,12 @@ def worker(batch, rec):
         for h in (payload["hist"] if "hist" in payload else random_histories(*payload["hgen"])):
             judge_history(rec, h)
         return
-    cases = payload["cases"] if "cases" in payload else random_cases(*payload["gen"])
     tmpdir = tempfile.mkdtemp(prefix="c11-run-")
     try:
+        if "ogen" in payload:
+            c11_options.run_batch(rec, payload, tmpdir)
+            return
+        cases = payload["cases"] if "cases" in payload else random_cases(*payload["gen"])
         for case in cases:
             judge_case(rec, case, tmpdir)
     finally:
@@ -1642,17 +1668,20 @@ def extra(tier, seed, results):
                   "history:shared-table:used-after-duplicating:edited-through-one-side"]
                  + ["history:original-vs-duplicate:" + rel for rel in SH_RELS] + ["history:vs-new-registry:" + rel for rel in SH_RELS])
     sub["histories-after-duplicating"] = {k: counters.get(k, 0) for k in ["history:histories", "history:tables-differ-after-history"] + hist_keys}
+    sub["options-of-the-persistence-doors"], options_blind = c11_options.gate(counters)
     known = core.load_findings()
     any_violation = any(k not in known for _, r in results for k in (r.get("viol") or {}))
     if not any_violation:        # a run that reports new violations is decided; "saw nothing" only matters when nothing new was found
         if starving:
             raise core.Inconclusive("sub-monitor-saw-nothing:" + ",".join(starving))
-        for m in ("x", "r", "xr", "rx", "m", "history"):
+        for m in ("x", "r", "xr", "rx", "m", "history", "options-writer", "options-reader"):
             if counters.get("forks:" + m, 0) == 0:
                 raise core.Inconclusive("no-fork-in-mode-" + m)
         blind = [k for k in hist_keys if counters.get(k, 0) == 0]
         if blind:
             raise core.Inconclusive("history-sub-monitor-saw-nothing:" + ",".join(blind))
+        if options_blind:
+            raise core.Inconclusive("options-sub-monitor-saw-nothing:" + ",".join(options_blind))
         wd = counters.get("inconclusive-cases:watchdog", 0)
         if wd > 0.02 * max(1, counters.get("cases", 0)):
             raise core.Inconclusive(f"watchdog-on-{wd}-cases")
